@@ -383,6 +383,24 @@ def replay_file(path):
     return 0
 
 
+def _merge_legs(legs):
+    """slices 'name:k' of one enumeration are reported as one record"""
+    out, sl = [], {}
+    for l in legs:
+        d = {k: v for k, v in l.items() if k != "failures"}
+        name = str(d.get("leg", ""))
+        if ":" in name:
+            base = name.split(":")[0]
+            m = sl.setdefault(base, {"leg": base, "kind": d.get("kind"), "slices": 0, "cases": 0, "exhaustive": True})
+            m["slices"] += 1
+            m["cases"] += int(d.get("cases", 0))
+            m["exhaustive"] = m["exhaustive"] and bool(d.get("exhaustive"))
+            m["note"] = "all slices together cover 0..2^28-1" if base.startswith("vlq") else d.get("note", "")
+        else:
+            out.append(d)
+    return out + [sl[k] for k in sorted(sl)]
+
+
 def _evidence(prop, tier, seed, eng, desc, tot, shapes, states, orders, samples, failing, unlisted, reported, legs, wall, workers, ndup, findings):
     runs = tot["runs"]
     fault_kinds = {k: int(tot["faults"].get(k, 0)) for k in desc.get("fault_kinds", [])}
@@ -418,7 +436,7 @@ def _evidence(prop, tier, seed, eng, desc, tot, shapes, states, orders, samples,
         "failing_runs_listed_as_known": len(set(f[0] for f in failing if f[5] is not None)),
         "failing_runs_unlisted": len(set(f[0] for f in unlisted)),
         "replays": [p for _, p, _ in reported],
-        "enumeration_legs": [{k: v for k, v in l.items() if k != "failures"} for l in legs],
+        "enumeration_legs": _merge_legs(legs),
         "workers": workers,
         "exhaustive": False,
     }
